@@ -6,6 +6,7 @@ package main
 // path table of a boolean repository callee.
 
 import (
+	"fmt"
 	"go/token"
 	"go/types"
 	"sort"
@@ -633,4 +634,383 @@ func repoFuncSet(p *Prog) map[*ssa.Function]bool {
 		out[f] = true
 	}
 	return out
+}
+
+// ---------------------------------------------------------------------------------------------
+// roles of the promotion decision's arguments, followed through a tuple-returning helper
+
+// assignedOnlyUnderAcross is assignedOnlyUnder, looking through a repository helper that returns
+// the value as one element of its result tuple: every return of the helper must assign that result
+// only under the fact.
+func assignedOnlyUnderAcross(prog *Prog, fn *ssa.Function, v ssa.Value, match func(c ssa.Value, key string) bool, depth int) bool {
+	v = stripConv(v)
+	var call *ssa.Call
+	idx := 0
+	if e, ok := v.(*ssa.Extract); ok {
+		call, _ = e.Tuple.(*ssa.Call)
+		idx = e.Index
+	} else if c, ok := v.(*ssa.Call); ok {
+		call = c
+	}
+	if call != nil && depth < 3 {
+		if g := staticCallee(&call.Call); g != nil && prog.IsRuleSite(g) && len(g.Blocks) > 0 {
+			n := 0
+			for _, b := range g.Blocks {
+				ret := returnOf(b)
+				if ret == nil || idx >= len(ret.Results) {
+					continue
+				}
+				n++
+				if !assignedOnlyUnderAcross(prog, g, ret.Results[idx], match, depth+1) {
+					return false
+				}
+			}
+			return n > 0
+		}
+	}
+	return assignedOnlyUnder(computeFacts(fn), v, match)
+}
+
+// assignRolesA determines the roles of the decision function's parameters like assignRoles
+// (rules_c05.go), but follows the arguments through a helper that computes them.
+func assignRolesA(r *Run, rule string, s *decisionSite) bool {
+	s.roles = map[string]*ssa.Parameter{}
+	var ersParams []*ssa.Parameter
+	upToDate := func(c ssa.Value, _ string) bool {
+		_, ok := isCallTo(c, pkgComparison+".IsReplicaSetUpToDate")
+		return ok
+	}
+	active := func(c ssa.Value, _ string) bool {
+		return isEqCompare(c, loadOfPath(nil, "Name"), loadOfPath(nil, "Status", "ActiveReplicaSet"))
+	}
+	for i, p := range s.decision.Params {
+		switch {
+		case isPtrToNamed(p.Type(), pkgAPI, "ExtendedDaemonSet"):
+			s.roles["daemonset"] = p
+		case isPtrToNamed(p.Type(), pkgAPI, "ExtendedDaemonSetReplicaSet"):
+			ersParams = append(ersParams, p)
+			if assignedOnlyUnderAcross(r.Prog, s.caller, s.call.Call.Args[i], upToDate, 0) {
+				s.roles["upToDate"] = p
+			}
+		case typeName(p.Type()) == "time.Time":
+			s.roles["now"] = p
+		}
+	}
+	for _, p := range ersParams {
+		if p != s.roles["upToDate"] && assignedOnlyUnderAcross(r.Prog, s.caller, s.call.Call.Args[paramIndex(p)], active, 0) {
+			s.roles["active"] = p
+		}
+	}
+	ok := s.roles["daemonset"] != nil && s.roles["upToDate"] != nil && s.roles["active"] != nil && len(ersParams) == 2
+	var got []string
+	for k, p := range s.roles {
+		got = append(got, k+"="+p.Name())
+	}
+	sort.Strings(got)
+	r.Check(rule, "argument roles of the decision call", r.Prog.Pos(s.call.Pos()), shortFunc(s.caller),
+		"decision receives the reconciled object, the replica set selected under name==status.activeReplicaSet and the one selected under IsReplicaSetUpToDate", ok, strings.Join(got, " "))
+	return ok
+}
+
+// ---------------------------------------------------------------------------------------------
+// environments: values of a helper's parameters at a call site, so that matchers can look at an
+// expression inside a repository helper as if it were written at the call site
+
+type envT struct {
+	m      map[*ssa.Parameter]ssa.Value
+	parent *envT
+}
+
+func bindArgs(g *ssa.Function, args []ssa.Value, parent *envT) *envT {
+	e := &envT{m: map[*ssa.Parameter]ssa.Value{}, parent: parent}
+	for i, p := range g.Params {
+		if i < len(args) {
+			e.m[p] = args[i]
+		}
+	}
+	return e
+}
+
+// stripConvE strips conversions and replaces bound parameters by their call-site values.
+func stripConvE(v ssa.Value, env *envT) (ssa.Value, *envT) {
+	for i := 0; i < 8; i++ {
+		v = stripConv(v)
+		p, ok := v.(*ssa.Parameter)
+		if !ok || env == nil {
+			return v, env
+		}
+		b, bound := env.m[p]
+		if !bound {
+			return v, env
+		}
+		v, env = b, env.parent
+	}
+	return v, env
+}
+
+// pathsOfE is pathsOf with bound parameter roots replaced by the paths of their call-site values.
+func pathsOfE(v ssa.Value, env *envT) []valPath {
+	v, env = stripConvE(v, env)
+	var out []valPath
+	for _, p := range pathsOf(v) {
+		if pr, ok := p.root.(*ssa.Parameter); ok && env != nil {
+			if b, bound := env.m[pr]; bound {
+				for _, q := range pathsOfE(b, env.parent) {
+					out = append(out, valPath{root: q.root, fields: append(append([]string(nil), q.fields...), p.fields...)})
+				}
+				continue
+			}
+		}
+		out = append(out, p)
+	}
+	return out
+}
+
+func allPathsEndE(v ssa.Value, env *envT, suffix ...string) bool {
+	ps := pathsOfE(v, env)
+	if len(ps) == 0 {
+		return false
+	}
+	for _, p := range ps {
+		if !p.endsWith(suffix...) {
+			return false
+		}
+	}
+	return true
+}
+
+func singleRootWithSuffixE(v ssa.Value, env *envT, suffix ...string) (ssa.Value, bool) {
+	ps := pathsOfE(v, env)
+	if len(ps) == 0 {
+		return nil, false
+	}
+	root := ps[0].root
+	for _, p := range ps {
+		if !p.endsWith(suffix...) || p.root != root {
+			return nil, false
+		}
+	}
+	return root, true
+}
+
+// calleeOfE resolves the callee of a call: static, or dynamic through a function-typed parameter
+// that the environment binds to a function (or closure) value.
+func calleeOfE(c *ssa.CallCommon, env *envT) *ssa.Function {
+	if g := staticCallee(c); g != nil {
+		return g
+	}
+	if c.IsInvoke() {
+		return nil
+	}
+	v, _ := stripConvE(c.Value, env)
+	switch x := v.(type) {
+	case *ssa.Function:
+		return x
+	case *ssa.MakeClosure:
+		f, _ := x.Fn.(*ssa.Function)
+		return f
+	}
+	return nil
+}
+
+// xfact is a fact together with the environment in which its values are to be read.
+type xfact struct {
+	Fact
+	env *envT
+}
+
+// expandFacts returns the facts of path p (in environment env) and, for every fact about a
+// boolean result of a repository helper, the facts that hold on every path of the helper
+// compatible with that result (read in the helper's environment). A non-constant boolean result
+// returned by the helper contributes itself as a fact.
+func expandFacts(prog *Prog, facts []Fact, env *envT, depth int) []xfact {
+	var out []xfact
+	for _, f := range facts {
+		out = append(out, xfact{f, env})
+		if depth >= 3 {
+			continue
+		}
+		var call *ssa.Call
+		idx := 0
+		switch x := f.V.(type) {
+		case *ssa.Call:
+			call = x
+		case *ssa.Extract:
+			call, _ = x.Tuple.(*ssa.Call)
+			idx = x.Index
+		}
+		if call == nil {
+			continue
+		}
+		g := calleeOfE(&call.Call, env)
+		if g == nil || !prog.IsRuleSite(g) || len(g.Blocks) == 0 || idx >= g.Signature.Results().Len() {
+			continue
+		}
+		if bt, ok := g.Signature.Results().At(idx).Type().Underlying().(*types.Basic); !ok || bt.Kind() != types.Bool {
+			continue
+		}
+		gpaths, gk, ok := cachedFuncPaths(g)
+		if !ok {
+			continue
+		}
+		genv := bindArgs(g, call.Call.Args, env)
+		var sets [][]xfact
+		for _, q := range gpaths {
+			ret := returnOf(q.Blocks[len(q.Blocks)-1])
+			if ret == nil || idx >= len(ret.Results) {
+				continue
+			}
+			res := q.Resolve(ret.Results[idx])
+			var qfacts []Fact
+			for _, qf := range q.Facts {
+				qfacts = append(qfacts, qf)
+			}
+			if b, isC := constBool(res); isC {
+				if b != f.Pol {
+					continue
+				}
+			} else {
+				qfacts = append(qfacts, gk.normCond(res, f.Pol)...)
+			}
+			sets = append(sets, expandFacts(prog, qfacts, genv, depth+1))
+		}
+		if len(sets) == 0 {
+			continue
+		}
+		// facts common to all compatible paths
+		count := map[string]int{}
+		first := map[string]xfact{}
+		for _, s := range sets {
+			seen := map[string]bool{}
+			for _, xf := range s {
+				k := fkey(xf.Fact)
+				if xf.env != genv {
+					k = fmt.Sprintf("%p|%s", xf.env, k)
+				}
+				if seen[k] {
+					continue
+				}
+				seen[k] = true
+				count[k]++
+				if _, ok := first[k]; !ok {
+					first[k] = xf
+				}
+			}
+		}
+		var keys []string
+		for k, n := range count {
+			if n == len(sets) {
+				keys = append(keys, k)
+			}
+		}
+		sort.Strings(keys)
+		for _, k := range keys {
+			out = append(out, first[k])
+		}
+	}
+	return out
+}
+
+func factList(s factSet) []Fact {
+	var keys []string
+	for k := range s {
+		keys = append(keys, k)
+	}
+	sort.Strings(keys)
+	var out []Fact
+	for _, k := range keys {
+		out = append(out, s[k])
+	}
+	return out
+}
+
+// ---------------------------------------------------------------------------------------------
+// "condition T of status S is True", in either of its forms
+
+type condAtom struct {
+	call *ssa.Call // IsConditionTrue(S, T) or GetExtendedDaemonSetReplicaSetStatusCondition(S, T)
+	typ  string
+	val  tri
+}
+
+// condTrueAtoms reads, from a set of facts, what is known about replica-set conditions being True:
+// IsConditionTrue(S,T) = b, or c := Get…Condition(S,T) with c == nil / c.Status == "True" facts.
+func condTrueAtoms(facts []Fact) []condAtom {
+	var out []condAtom
+	type getState struct{ notNil, statusTrue tri }
+	gets := map[*ssa.Call]*getState{}
+	var order []*ssa.Call
+	getCall := func(v ssa.Value) *ssa.Call {
+		c, ok := stripConv(v).(*ssa.Call)
+		if ok && calleeName(&c.Call) == pkgERSCond+".GetExtendedDaemonSetReplicaSetStatusCondition" {
+			return c
+		}
+		return nil
+	}
+	state := func(c *ssa.Call) *getState {
+		if gets[c] == nil {
+			gets[c] = &getState{}
+			order = append(order, c)
+		}
+		return gets[c]
+	}
+	for _, f := range facts {
+		if call, ok := f.V.(*ssa.Call); ok && calleeName(&call.Call) == pkgERSCond+".IsConditionTrue" {
+			t, _ := condTypeConst(call)
+			out = append(out, condAtom{call: call, typ: t, val: triOf(f.Pol)})
+			continue
+		}
+		x, y, ok := eqOperands(f.V)
+		if !ok {
+			continue
+		}
+		for _, pair := range [][2]ssa.Value{{x, y}, {y, x}} {
+			a, b := pair[0], pair[1]
+			if isNilConst(b) {
+				if c := getCall(a); c != nil {
+					state(c).notNil = triOf(!f.Pol) // fact key is (c == nil)
+				}
+			}
+			if s, isS := constString(b); isS && s == "True" {
+				ps := pathsOf(stripConv(a))
+				if len(ps) == 1 && len(ps[0].fields) == 1 && ps[0].fields[0] == "Status" {
+					if c := getCall(ps[0].root); c != nil {
+						state(c).statusTrue = triOf(f.Pol)
+					}
+				}
+			}
+		}
+	}
+	for _, c := range order {
+		st := gets[c]
+		t, _ := condTypeConst(c)
+		v := triUnknown
+		switch {
+		case st.notNil == triTrue && st.statusTrue == triTrue:
+			v = triTrue
+		case st.notNil == triFalse || st.statusTrue == triFalse:
+			v = triFalse
+		}
+		if v != triUnknown {
+			out = append(out, condAtom{call: c, typ: t, val: v})
+		}
+	}
+	return out
+}
+
+type pathsEntry struct {
+	paths []*Path
+	k     *keyer
+	ok    bool
+}
+
+var funcPathsCache = map[*ssa.Function]pathsEntry{}
+
+func cachedFuncPaths(g *ssa.Function) ([]*Path, *keyer, bool) {
+	if e, ok := funcPathsCache[g]; ok {
+		return e.paths, e.k, e.ok
+	}
+	ps, k, ok := funcPaths(g, 2000)
+	funcPathsCache[g] = pathsEntry{ps, k, ok}
+	return ps, k, ok
 }
